@@ -322,10 +322,12 @@ bool readFlag(std::istream &os){
     if (std::is_same<iomode, mode_ascii_type>::value){
         int flag;
         os >> flag;
+        if (os.fail()) throw std::runtime_error("ERROR: unexpected end of the stream while reading a Tasmanian object");
         return (flag != 0);
     }else{
         char cflag;
         os.read(&cflag, sizeof(char));
+        if (os.fail()) throw std::runtime_error("ERROR: unexpected end of the stream while reading a Tasmanian object");
         return (cflag == 'y');
     }
 }
@@ -362,6 +364,7 @@ void readVector(std::istream &is, std::vector<VecType> &x){
     }else{
         is.read((char*) x.data(), x.size() * sizeof(VecType));
     }
+    if (is.fail()) throw std::runtime_error("ERROR: unexpected end of the stream while reading a Tasmanian object");
 }
 
 /*!
@@ -397,6 +400,7 @@ Val readNumber(std::istream &is){
     }else{
         is.read((char*) &v, sizeof(Val));
     }
+    if (is.fail()) throw std::runtime_error("ERROR: unexpected end of the stream while reading a Tasmanian object");
     return v;
 }
 
